@@ -314,7 +314,7 @@ def check_spec(repo, rel, res):
     tmp = tempfile.mkdtemp(prefix="tlalint-")
     try:
         shutil.copy(path, tmp)
-        p = subprocess.run(["java", "-cp", JAR, "tla2sany.xml.XMLExporter", "-o", "-t", os.path.basename(path)], cwd=tmp, stdout=subprocess.PIPE, stderr=subprocess.PIPE)
+        p = subprocess.run(["java", "-Djava.io.tmpdir=" + tmp, "-cp", JAR, "tla2sany.xml.XMLExporter", "-o", "-t", os.path.basename(path)], cwd=tmp, stdout=subprocess.PIPE, stderr=subprocess.PIPE)
         if p.returncode != 0 or not p.stdout.strip().startswith(b"<?xml"):
             res.fail("TLA-TYPE", spec + "/parse", rel, "SANY cannot parse/resolve the module: " + (p.stderr.decode()[-300:] or p.stdout.decode()[-300:]))
             return
